@@ -1,6 +1,7 @@
 """C09 - The IdP answers only to endpoints registered for the requesting SP."""
 import ast
 
+from ..match import facts, Q
 from ..srcmodel import attr_chain, call_name, unparse, norm_text, walk_no_nested
 from ..cfg import cfg_of, raised_class
 from ..dataflow import Origins
@@ -39,7 +40,7 @@ def r1_destination_provenance(run):
         # lookup was made with
         gs = cfg.guards(r.id)
         facts = {(unparse(e), p) for e, p, _ in gs}
-        run.check(("srvs", True) in facts, "R1", key + "::srvs-nonempty",
+        run.check(Q("srvs", True) in facts, "R1", key + "::srvs-nonempty",
                   "only when the metadata lists services for this binding",
                   "returned without a non-empty metadata service list",
                   fi.loc(r.ast))
@@ -158,8 +159,8 @@ def r3_requester_metadata(run):
     for nd in cfg.by_kind("stmt"):
         s = nd.ast
         if isinstance(s, ast.Assign) and unparse(s.targets[0]) == "entity_id":
-            gs = {(unparse(e), p) for e, p, _ in cfg.guards(nd.id)}
-            run.check(("entity_id", False) in gs and ("request", True) in gs,
+            gs = facts(cfg, nd.id)
+            run.check(Q("entity_id", False) in gs and Q("request", True) in gs,
                       "R3", fi.qual + "::entity_id-fallback",
                       "issuer used only when no entity_id was given",
                       "entity_id reassigned under %s" % sorted(gs), fi.loc(s))
@@ -185,8 +186,8 @@ def r3_requester_metadata(run):
                       ra.loc(s))
             if any(a.kind == "const" for a in got) or any(
                     a.kind == "global" for a in got):
-                gs = {(unparse(e), p) for e, p, _ in rcfg.guards(nd.id)}
-                run.check(("bindings == [BINDING_SOAP]", True) in gs, "R3",
+                gs = facts(rcfg, nd.id)
+                run.check(Q("bindings == [BINDING_SOAP]", True) in gs, "R3",
                           ra.qual + "::" + t + "::soap-only",
                           "constant answer only for SOAP-only exchanges",
                           "constant destination under %s" % sorted(gs),
@@ -232,15 +233,14 @@ def r4_store_side(run, rule="R4"):
         s = nd.ast
         if isinstance(s, ast.Assign) and unparse(s.targets[0]) == "known_entity" \
                 and not is_falsy_const(s.value):
-            gs = {(unparse(e), p) for e, p, _ in cfg.guards(nd.id)}
-            run.check(("srvs is None", False) in gs and ("srvs", False) in gs,
+            gs = facts(cfg, nd.id)
+            run.check(Q("srvs is None", False) in gs and Q("srvs", False) in gs,
                       rule, fi.qual + "::known_entity=True",
                       "set only when a source answered an empty (not None) list",
                       "known_entity set under %s" % sorted(gs), fi.loc(s))
     rets = cfg.by_kind("return")
     run.check(all(unparse(r.ast.value) == "srvs" and
-                  ("srvs", True) in {(unparse(e), p) for e, p, _ in
-                                     cfg.guards(r.id)} for r in rets) and rets,
+                  Q("srvs", True) in facts(cfg, r.id) for r in rets) and rets,
               rule, fi.qual + "::returns", "returns only a non-empty result",
               "returns %s" % [unparse(r.ast.value) for r in rets], fi.loc())
     implicit = [p for p in cfg.pred[cfg.return_exit]
@@ -258,9 +258,9 @@ def r4_store_side(run, rule="R4"):
             if attr_chain(c.func) == "res.append"]
     ok = bool(apps)
     for nd, c in apps:
-        gs = {(unparse(e), p) for e, p, _ in scfg.guards(nd.id)}
-        if ("binding", True) in gs:
-            ok = ok and ("srv['binding'] == binding", True) in gs
+        gs = facts(scfg, nd.id)
+        if Q("binding", True) in gs:
+            ok = ok and Q("srv['binding'] == binding", True) in gs
     run.check(ok, rule, fs.qual + "::binding-filter",
               "a service is kept only if its binding equals the requested one",
               "binding filter changed", fs.loc())
